@@ -46,6 +46,13 @@ def programs(tier):
                                       el('a', 'b-level', i18n_translate=''), i18n_domain='b'),
                               el('a', 'a-level', i18n_translate=''), i18n_domain='a'),
                            el('a', 'top', i18n_translate='')))
+    add('target-applies-to-attributes', doc(el('x', el('img', static=[['alt', 'Logo'], ['src', 'a.png']], i18n_attributes='alt'),
+                                               el('a', 'in', i18n_translate=''),
+                                               el('y', el('img', static=[['title', ['T', I('site')]]], i18n_attributes='title'),
+                                                  i18n_target='lang'),
+                                               i18n_target="'fr'", i18n_domain='shop'),
+                                            el('img', static=[['alt', 'Out']], i18n_attributes='alt')),
+        [['site', 'int', 0], ['lang', 'int', 1]], target_language='de')
     add('target-expression', doc(el('x', el('a', 'in', i18n_translate=''), i18n_target='lang'),
                                  el('x', el('a', 'dflt', i18n_translate=''), i18n_target='default')),
         [['lang', 'int', 0]], target_language='de')
@@ -67,6 +74,45 @@ def programs(tier):
     return out
 
 
+def macro_pairs():
+    """(template with METAL, hand-written METAL-free equivalent): a macro body starts from its caller's
+    settings, a slot filler keeps those of the place where it was written"""
+    T = lambda text, **kw: el('a', text, i18n_translate='', **kw)    # noqa: E731
+    hide = lambda *m: el('hide', *m, condition=py('False'))          # noqa: E731
+    out = []
+    macro = el('p', T('in-macro'), el('x', el('b', T('slot-default'), define_slot='s'), T('in-macro-2'),
+                                      i18n_domain='md', i18n_target="'fr'", i18n_context='mc'), define_macro='m')
+    body = lambda slot: el('p', T('in-macro'), el('x', slot, T('in-macro-2'), i18n_domain='md', i18n_target="'fr'",    # noqa: E731
+                                                  i18n_context='mc'))
+    caller_kw = dict(i18n_domain='cd', i18n_target="'it'", i18n_context='cc')
+    # 1 filler translating content: keeps the caller's domain/context/target inside the macro's other settings
+    a = el('div', hide(macro), el('y', {'tag': 'u', 'children': [el('em', 'filler', fill_slot='s', i18n_translate='')],
+                                        'use_macro': "macros['m']"}, **caller_kw), T('after'))
+    b = el('div', hide(body(el('b', T('slot-default')))),
+           el('y', body(el('em', 'filler', i18n_translate='', **caller_kw)), **caller_kw), T('after'))
+    out.append(('filler-keeps-caller-settings', a, b, [], {'target_language': 'de'}))
+    # 2 slot not filled: the default content translates with the macro's settings; body starts from the caller's
+    a = el('div', hide(macro), el('y', {'tag': 'u', 'children': [], 'use_macro': "macros['m']"}, **caller_kw), T('after'))
+    b = el('div', hide(body(el('b', T('slot-default')))), el('y', body(el('b', T('slot-default'))), **caller_kw), T('after'))
+    out.append(('default-slot-macro-settings', a, b, [], {'target_language': 'de'}))
+    # 3 no settings at the call site: the render-time target language reaches the macro body
+    a = el('div', hide(macro), {'tag': 'u', 'children': [], 'use_macro': "macros['m']"}, T('after'))
+    b = el('div', hide(body(el('b', T('slot-default')))), body(el('b', T('slot-default'))), T('after'))
+    out.append(('render-target-language', a, b, [], {'target_language': 'de'}))
+    # 4 filler with i18n:attributes and a computed target at the call site (macro without a context of its own)
+    macro4 = el('p', T('in-macro'), el('x', el('b', T('slot-default'), define_slot='s'), T('in-macro-2'),
+                                       i18n_domain='md', i18n_target="'fr'"), define_macro='m')
+    body4 = lambda slot: el('p', T('in-macro'), el('x', slot, T('in-macro-2'), i18n_domain='md', i18n_target="'fr'"))   # noqa: E731
+    filler = el('img', static=[['alt', 'Logo'], ['src', 'a.png']], fill_slot='s', i18n_attributes='alt')
+    a = el('div', hide(macro4), el('y', {'tag': 'u', 'children': [filler], 'use_macro': "macros['m']"},
+                                   i18n_domain='cd', i18n_target='lang'), T('after'))
+    b = el('div', hide(body4(el('b', T('slot-default')))),
+           el('y', body4(el('w', el('img', static=[['alt', 'Logo'], ['src', 'a.png']], i18n_attributes='alt'), omit='',
+                            i18n_domain='cd', i18n_target='lang')), i18n_domain='cd', i18n_target='lang'), T('after'))
+    out.append(('filler-attributes-computed-target', a, b, [['lang', 'int', 0]], {'target_language': 'de'}))
+    return out
+
+
 def plan(tier, seed):
     quick = tier == 'quick'
     jobs = []
@@ -77,8 +123,16 @@ def plan(tier, seed):
     by = {j['label']: j for j in jobs}
     fam = dict(name='i18n_contract', module=HG, fn='H', jobs=jobs, timeout=300 if quick else 900, batch=2, vacuity=2,
                program_key='prog',
-               mutants=[{'name': 'i18n_backup_by_value', 'cfg': by['same-value-nesting']},
+               mutants=[{'name': 'attribute_target_from_context', 'cfg': by['target-applies-to-attributes']},
+                        {'name': 'i18n_backup_by_value', 'cfg': by['same-value-nesting']},
                         {'name': 'msgid_not_normalised', 'cfg': by['implicit-id']}])
+    mj = []
+    for label, a, b, vars_, cfg in macro_pairs():
+        j = {'label': 'macro:' + label, 'lib': None, 'caller': a, 'inlined': b, 'vars': vars_, 'i18n': True}
+        j.update(cfg)
+        mj.append(j)
+    famM = dict(name='i18n_across_macros', module='checks.hC09', fn='H', jobs=mj, timeout=300, vacuity=1,
+                program_key='label', mutants=[{'name': 'filler_uses_macro_target', 'cfg': mj[0]}])
     return dict(
         level='translation_validation',
         functions=['chameleon.compiler:Compiler.visit_Translate', 'chameleon.compiler:Compiler.visit_Name',
@@ -88,14 +142,16 @@ def plan(tier, seed):
                    'chameleon.zpt.program:MacroProgram._create_attributes_nodes', 'chameleon.i18n:parse_attributes'],
         bounds=('%d templates: translate with implicit/explicit id, empty content, 1-2 named children (under '
                 'condition / omit-tag), nested translate, domain/context/target on ancestors incl. same-value and a-b-a '
-                'nestings and target expressions, dynamic tal:content with i18n:translate, i18n:attributes on static / '
+                'nestings and target expressions (also for attribute translations), dynamic tal:content with i18n:translate, i18n:attributes on static / '
                 'interpolated / dynamic attributes with and without ids, implicit_i18n_attributes alone and together with '
                 'i18n:attributes, translate inside repeat; the translation function is a recording function whose return '
                 'value exposes msgid, mapping, default, domain, context and target language, so output equality checks '
-                'every argument; bindings decided by the solver. Outside: macros/slot fillers (C09 is metamorphic and '
-                'has no translation), implicit_i18n_translate, i18n:name under repeat, i18n:ignore/comment/data.'
+                'every argument; bindings decided by the solver; 4 macro programs compared with hand-written METAL-free '
+                'equivalents (a slot filler translating content / attributes keeps the settings of the place where it was '
+                'written, the default slot content uses the macro\'s, the macro body starts from the caller\'s resp. the '
+                'render-time target language). Outside: implicit_i18n_translate, i18n:name under repeat, i18n:ignore/comment/data.'
                 % len(jobs)),
         assumptions=['reference i18n semantics in vlib/refsem.py from docs/reference.rst (i18n section) and the property '
                      'statement'],
-        families=[fam],
+        families=[fam, famM],
     )
